@@ -1,6 +1,7 @@
 ------------------------------ MODULE GenC18P -------------------------------
 (* Behaviour machine for the scoping part of C18: every balanced sequence of at most MaxItems  *)
-(* items over { .table T1, .table T2, .text s1, .text s2, "{", "}" } with nesting depth <= 2.  *)
+(* items over { .table T1, .table T2, .text s1, .text s2, "{", "}" } with nesting depth <= 2,  *)
+(* plus `.if 1 {` ... `}` wrappers, which open no scope (a table loaded inside stays in force).  *)
 EXTENDS Table, TLC, Json, IOUtils
 MaxItems == atoi(IOEnv.MAXITEMS)
 
@@ -14,17 +15,19 @@ T1 == << [text |-> <<"a">>, code |-> <<1>>], [text |-> <<"b">>, code |-> <<2>>],
          [text |-> <<"'">>, code |-> <<144>>], [text |-> <<"c">>, code |-> <<0, 67>>] >>
 T2 == << [text |-> <<"a">>, code |-> <<17>>], [text |-> <<"b", "a">>, code |-> <<18, 19>>] >>
 Items == { [k |-> "table", t |-> 1], [k |-> "table", t |-> 2], [k |-> "text", s |-> S1], [k |-> "text", s |-> S2], [k |-> "text", s |-> S3],
-           [k |-> "open"], [k |-> "close"] }
+           [k |-> "open"], [k |-> "close"], [k |-> "ifopen"], [k |-> "ifclose"] }
 
-VARIABLES items, depth
-Init == items = <<>> /\ depth = 0
+VARIABLES items, stk
+Init == items = <<>> /\ stk = <<>>
 Next == /\ Len(items) < MaxItems
         /\ \E it \in Items :
-             /\ (it.k = "close" => depth > 0)
-             /\ (it.k = "open" => depth < 2)
-             /\ depth' = (IF it.k = "open" THEN depth + 1 ELSE IF it.k = "close" THEN depth - 1 ELSE depth)
-             /\ Len(items) + 1 + depth' <= MaxItems
+             /\ (it.k = "close" => stk # <<>> /\ stk[Len(stk)] = "s")
+             /\ (it.k = "ifclose" => stk # <<>> /\ stk[Len(stk)] = "i")
+             /\ (it.k \in {"open", "ifopen"} => Len(stk) < 2)
+             /\ stk' = (IF it.k = "open" THEN Append(stk, "s") ELSE IF it.k = "ifopen" THEN Append(stk, "i")
+                        ELSE IF it.k \in {"close", "ifclose"} THEN SubSeq(stk, 1, Len(stk) - 1) ELSE stk)
+             /\ Len(items) + 1 + Len(stk') <= MaxItems
              /\ items' = Append(items, it)
 HasText == \E j \in 1..Len(items) : items[j].k = "text"
-Emit == (depth = 0 /\ HasText) => PrintT(ToJson([items |-> items, tables |-> <<T1, T2>>]))
+Emit == (stk = <<>> /\ HasText) => PrintT(ToJson([items |-> items, tables |-> <<T1, T2>>]))
 =============================================================================
